@@ -296,6 +296,15 @@ func runLifeMode(mode string, r *vlib.Rand, keys map[string]struct{}) {
 		ncase = *vlib.FlagN
 	}
 	cfgs := streamConfigs(r, true, 0)
+	if mode == "c06" {
+		// the Shutdown an OnClose returns must count whichever way that close came about
+		for i, via := range triggerVias {
+			c := cfgs[(i+int(res.Seed))%len(cfgs)]
+			n := runLifeCase(c, res.Seed*1000213+uint64(i), lifeOpts{npeers: r.Pick(0, 3, 6), shutdownFrom: "OnClose", moment: "idle", via: via}, keys)
+			res.Eval(n)
+			res.Checkpoint()
+		}
+	}
 	for i := 0; i < ncase; i++ {
 		c := cfgs[i%len(cfgs)]
 		o := lifeOpts{npeers: r.Pick(8, 20, 40), shutdownFrom: "Engine.Stop", moment: "idle"}
